@@ -11,7 +11,7 @@
    operations under any schedule.  The theorems hold for EVERY program family accepted by the
    boolean [wf_prog]; that the service's own code is such a family is [C12_blockrelay_wf], computed
    against the graph the translator extracts from the source on every run. *)
-From Verif Require Import Lib.Base Lib.Sched Lib.Lockset Model.C12_ConfigLock Proofs.C12 Proofs.C12_Data Proofs.C12_ReadOnly Proofs.C12_NoAccount Gen.C17_Extracted.
+From Verif Require Import Lib.Base Lib.Sched Lib.Lockset Model.C12_ConfigLock Proofs.C12 Proofs.C12_Data Proofs.C12_ReadOnly Proofs.C12_NoAccount Proofs.C12_Relay Gen.C17_Extracted.
 
 (* ------------------------------------------------------------------------------------------- *)
 (* 1. Keeps the last good configuration                                                         *)
@@ -308,14 +308,14 @@ Theorem C12_deadlock_refuted :
      forall a, cstep prefix_prog s a = None).
 Proof.
   split; [vm_compute; reflexivity|]. split.
-  - (* threads: 0 = auction (entry 4), 1 = refresh (entry 13) *)
-    exists [4%nat; 18%nat], [(0, 0); (1, 0); (1, 0); (1, 0); (1, 0); (1, 0)]%nat.
+  - (* threads: 0 = auction (entry 4), 1 = refresh (entry 19) *)
+    exists [4%nat; 19%nat], [(0, 0); (1, 0); (1, 0); (1, 0); (1, 0); (1, 0)]%nat.
     split; [intros e [<-|[<-|[]]]; vm_compute; tauto|].
     split.
     + vm_compute. intros t [<-|[<-|[]]]; discriminate.
     + intros [i c]. destruct i as [|[|i]]; vm_compute; try reflexivity. destruct i; reflexivity.
   - (* threads: 0 = auction of an unresolvable validator, 1 = refresh, 2 = lookup *)
-    exists [4%nat; 18%nat; 0%nat],
+    exists [4%nat; 19%nat; 0%nat],
       [(0, 0); (0, 0); (0, 0); (0, 0); (0, 0); (0, 1); (0, 0); (1, 0); (1, 0); (1, 0); (1, 0); (1, 0); (2, 0)]%nat.
     split; [intros e [<-|[<-|[<-|[]]]]; vm_compute; tauto|].
     split; [|split].
@@ -346,7 +346,7 @@ Proof. vm_compute. auto. Qed.
    refresh interleaved; a writer announced while a reader is inside *)
 Example C12_ex_run :
   let s := run (cstep hand_prog) [(0, 0); (3, 0); (3, 0); (3, 0); (3, 0); (3, 0); (1, 0)]%nat
-               (init_sys [0; 4; 8; 14]%nat) in
+               (init_sys [0; 4; 8; 15]%nat) in
   l_readers (s_lock s) = 1%nat /\ l_writer (s_lock s) = WPending 3 /\
   cstep hand_prog s (1, 0)%nat = None /\ cstep hand_prog s (3, 0)%nat = None /\
   cstep hand_prog s (0, 0)%nat <> None.
@@ -504,3 +504,56 @@ Example C12_ex_accountless :
       (true, if d_relay ex_d1 then RDone else RNoRelays); (true, RNoRelays);
       (true, RDone); (true, RErr)], true, Some ex_d1).
 Proof. vm_compute. reflexivity. Qed.
+
+(* ------------------------------------------------------------------------------------------- *)
+(* 20. Requests held by a relay                                                                  *)
+
+(* ValidatorRegistrations (registrations forwarded by beacon nodes) and the registration round end with
+   the round trips to the relays (submitRelayRegistrations waits for all of them); a relay may take as
+   long as it likes to answer.  In the programs that is the step [MRelay], the last step of exactly
+   these two request kinds, and in the lock graph a wait for something foreign ([OBlock]), which
+   [wf_prog] accepts only where the lock is not held.  So, for ANY well-formed program family (the
+   hand programs are one, theorem 15), any number of threads and any schedule: a thread that stands at
+   a foreign wait holds neither the read nor the write lock.  Together with theorem 10 (whenever the
+   lock is not free, a thread involved can step and that step is NOT a foreign wait): no refresh, no
+   lookup, no auction ever waits for a relay to answer.  That the CODE makes the round trip outside the
+   lock is checked by the harness: the relay sits on the POST of a forwarded registration / of a
+   registration round while refreshes of every outcome, lookups, auctions and further registrations
+   arrive, and each of them must return at once (P_b: no settle ran into the watchdog). *)
+Theorem C12_held_by_relay_holds_nothing :
+  (forall (pre : bool) (sp : spawn), In MRelay (program pre sp) -> sp_kind sp = KFwd \/ sp_kind sp = KReg) /\
+  (forall sp : spawn, sp_kind sp = KFwd \/ sp_kind sp = KReg -> last (program false sp) MNop = MRelay) /\
+  (forall m : mstep, op_of_mstep m = OBlock <-> m = MForeign \/ m = MRelay) /\
+  (forall (g : prog) (entries : list nat),
+      wf_prog g entries = true ->
+      forall (es : list nat), (forall e, In e es -> In e entries) ->
+      forall (sch : list (nat * nat)),
+        let s := run (cstep g) sch (init_sys es) in
+        forall (i : nat) (t : thr),
+          nth_error (s_threads s) i = Some t -> foreign_wait g t = true -> t_r t = 0%nat /\ t_w t = false).
+Proof.
+  split; [exact relay_step_where|]. split; [exact relay_step_last|]. split; [exact relay_step_is_foreign|].
+  intros g entries Hwf es Hes sch s i t Hi Hf.
+  exact (foreign_wait_holds_nothing g entries _ Hwf s i t (inv_run g entries _ Hwf es sch Hes) Hi Hf).
+Qed.
+Print Assumptions C12_held_by_relay_holds_nothing.
+
+(* a document with a relay; the relay then sits on a forwarded registration for validator 1 and on a
+   registration round; a refresh installing the next document, a failing refresh, a lookup and an auction
+   all return meanwhile (answered from the new document); the two held requests return when released.
+   With a document that makes validator 3 unresolvable nothing is handed to the relay for it: the gated
+   forwarded registration for validator 3 returns at once. *)
+Definition ex_gated (k : kind) (v : N) : spawn :=
+  {| sp_kind := k; sp_v := v; sp_gate := true; sp_ref := ex_rf FErr |}.
+Example C12_ex_held_by_relay :
+  let cmds := [Spawn (ex_sp KRefresh 0 (FOk ex_d1)); Spawn (ex_gated KFwd 1); Spawn (ex_gated KReg 0);
+               Spawn (ex_gated KFwd 3);
+               Spawn (ex_sp KRefresh 0 (FOk {| d_id := 2; d_bad := []; d_relay := true |}));
+               Spawn (ex_sp KRefresh 0 FMalformed); Spawn (ex_sp KLookup 1 FErr); Spawn (ex_sp KAuction 3 FErr)] in
+  predict false true None cmds
+  = ([(true, RDone); (false, RAny); (false, RAny); (true, RNoRelays); (true, RDone); (true, RDone); (true, RFee 2); (true, RFee 2)],
+     true, Some {| d_id := 2; d_bad := []; d_relay := true |}) /\
+  predict false true None (cmds ++ [Release 1; Release 2])
+  = ([(true, RDone); (true, RDone); (true, RDone); (true, RNoRelays); (true, RDone); (true, RDone); (true, RFee 2); (true, RFee 2)],
+     true, Some {| d_id := 2; d_bad := []; d_relay := true |}).
+Proof. vm_compute. split; reflexivity. Qed.
